@@ -46,11 +46,16 @@ Definition date_eqb (a b : Z * Z * Z) : bool :=
   let '(y1, m1, d1) := a in let '(y2, m2, d2) := b in (m1 =? m2) && ((d1 =? d2) && (y1 =? y2)).
 Definition model_leap_clause (year month day : Z) : bool :=
   ((month =? 12) || (month =? 6)) && (day =? usual_days_per_month month)
-  && (((month =? 6) && july_years year) || ((month =? 12) && january_years (year + 1))).
+  && (((month =? 6) && july_years year) || ((month =? 12) && january_years (wrap_signed 32 (year + 1)))).
 (* the two hand-written year lists of the code are exactly the dates of the table *)
-Lemma model_leap_clause_is_table y m d : model_leap_clause y m d = existsb (date_eqb (y, m, d)) leap_days.
+Lemma january_wrap y : in_i32 y -> january_years (wrap_signed 32 (y + 1)) = january_years (y + 1).
 Proof.
-  unfold model_leap_clause.
+  unfold in_i32, in_range, I32_MIN, I32_MAX. intros H. destruct (Z.eq_dec y 2147483647) as [->|N]; [reflexivity|].
+  rewrite wrap_signed_small by (try lia; change (2 ^ (32 - 1)) with 2147483648; lia). reflexivity.
+Qed.
+Lemma model_leap_clause_is_table y m d : in_i32 y -> model_leap_clause y m d = existsb (date_eqb (y, m, d)) leap_days.
+Proof.
+  intros Hy32. unfold model_leap_clause. rewrite january_wrap by exact Hy32.
   let v := eval vm_compute in leap_days in change leap_days with v.
   unfold july_years, january_years, JULY_YEARS, JANUARY_YEARS. cbn [existsb date_eqb].
   destruct (m =? 6) eqn:M6; [assert (m = 6) by lia; subst m; change (usual_days_per_month 6) with 30|].
@@ -99,7 +104,7 @@ Lemma valid_bounds y m d h mi s ns : 0 <= m -> 0 <= d -> is_gregorian_valid y m 
   (s = 60 -> model_leap_clause y m d = true /\ h = 23 /\ mi = 59).
 Proof.
   intros Hm0 Hd0. unfold is_gregorian_valid, model_leap_clause. change NANOSECONDS_PER_SECOND_U32 with 1000000000. cbv zeta.
-  set (lc := ((m =? 6) && july_years y || (m =? 12) && january_years (y + 1))).
+  set (lc := ((m =? 6) && july_years y || (m =? 12) && january_years (wrap_signed 32 (y + 1)))).
   set (dm := (d =? usual_days_per_month m)). set (m126 := (m =? 12) || (m =? 6)).
   set (mb := (usual_days_per_month m <? d) && (negb (m =? 2) || negb (is_leap_year y))).
   destruct (m126 && dm && (h =? 23) && (mi =? 59) && lc) eqn:L.
